@@ -1141,9 +1141,14 @@ def gen_typed(rng, ports, routes=("builder", "setter", "socket", "decode"), keys
         for key in keys:
             for route in routes:
                 steps = [{"op": "build", "h": "r", "kt": kt, "signer": own, "calls": [{"m": "ip4", "ip": [10, 0, 0, 1]}, {"m": "ip6", "ip": [0] * 15 + [1]}]}]
-                for p in ports:
+                for pi, p in enumerate(ports):
                     if route == "builder":
-                        steps.append({"op": "build", "h": "b", "kt": kt, "signer": own, "obs": "typed", "calls": [{"m": bmeth[key], "port": p}]})
+                        b = {"op": "build", "h": "b", "kt": kt, "signer": own, "obs": "typed", "calls": [{"m": bmeth[key], "port": p}]}
+                        if pi % 3 == 1:
+                            # the same builder builds a second record (another sequence number): what was stored is still there
+                            b["rebuild"] = True
+                            b["calls2"] = [{"m": "seq", "seq": [2]}] if pi % 2 else []
+                        steps.append(b)
                     elif route == "setter":
                         steps.append({"op": "call", "h": "r", "m": setter[key], "args": {"port": p}, "signer": own, "obs": "typed"})
                     elif route == "socket":
